@@ -54,6 +54,7 @@ def plan(ctx):
     cases += [("index", i) for i in range(400 * k)]
     cases += [("reduce", i) for i in range(150 * k)]
     cases += [("pack", i) for i in range(150 * k)]
+    cases += [("logunit", i) for i in range(12 * k)]
     if ctx.thorough:      # larger tables live in their own kinds so that a replay never depends on the tier
         for kind, cnt in (("wrap_big", 150), ("phase_big", 150), ("index_big", 400), ("reduce_big", 150), ("pack_big", 100)):
             cases += [(kind, i) for i in range(cnt)]
@@ -782,6 +783,71 @@ def pack_case(ctx, g, rng):
 # ------------------------------------------------------------------------------------------------
 
 
+def logunit_case(ctx, g, rng):
+    """a table whose period (or K, s) column is handed over as a logarithmic quantity (`u.Dex(log10 P, u.dex(u.day))`:
+    accepted by `JokerSamples` because dex(d) is "equivalent" to d).  Metamorphic: the same physical table with the column in
+    its ordinary unit; every operation of the property must give the same physical result and keep the metadata."""
+    import astropy.units as u
+    import thejoker as tj
+    from astropy.time import Time
+    rel = "a table with a column in a logarithmic unit behaves as the same table in the ordinary unit (get_t0, get_time_with_phase, mean/std, indexing, pack)"
+    n = int(rng.integers(2, 9))
+    tref = Time(58000.25 + float(rng.integers(0, 100)), format="mjd", scale="tcb")
+    pt_, no_ = int(rng.choice([1, 2])), int(rng.choice([0, 1]))
+    cols = dict(P=10 ** rng.uniform(0, 3, n) * u.day, e=rng.uniform(0, 0.9, n) * u.one, omega=rng.uniform(0, 6, n) * u.rad,
+                M0=rng.uniform(0, 6, n) * u.rad, s=10 ** rng.uniform(-2, 1, n) * u.km / u.s, K=10 ** rng.uniform(-1, 2, n) * u.km / u.s,
+                v0=rng.normal(0, 10, n) * u.km / u.s)
+    which = str(rng.choice(["P", "P", "K", "s"]))
+    logu = {"P": u.dex(u.day), "K": u.dex(u.km / u.s), "s": u.mag(u.km / u.s)}[which]
+
+    def build(log):
+        t = tj.JokerSamples(t_ref=tref, poly_trend=pt_, n_offsets=no_)
+        for k_, v_ in cols.items():
+            t[k_] = v_.to(logu) if (log and k_ == which) else v_
+        return t
+    ref = build(False)
+    ops = dict(
+        get_t0=lambda t: t.get_t0().tcb.mjd,
+        get_time_with_phase=lambda t: t.get_time_with_phase(1.25 * u.rad).tcb.mjd,
+        mean=lambda t: [t.mean()[c_].to_value(cols[c_].unit) for c_ in cols] + [str(t.mean().t_ref), t.mean().poly_trend, t.mean().n_offsets],
+        std=lambda t: [np.asarray(t.std()[c_].to_value(cols[c_].unit)) for c_ in cols if c_ != which] + [str(t.std().t_ref), t.std().poly_trend, t.std().n_offsets],
+        index=lambda t: [t[1:][c_].to_value(cols[c_].unit) for c_ in cols] + [str(t[1:].t_ref), t[1:].poly_trend],
+        median_period=lambda t: [np.asarray(t.median_period()[c_].to_value(cols[c_].unit)) for c_ in cols],
+        wrap_K=lambda t: [t.wrap_K()[c_].to_value(cols[c_].unit) for c_ in cols],
+        pack=lambda t: t.pack()[0],
+    )
+    ctx.count("logunit:" + which)
+    bad = []
+    try:
+        lg = build(True)
+    except Exception as e_:  # noqa: BLE001
+        # refusing the logarithmic column outright is a consistent answer as well (the table is then not a valid one)
+        ctx.evaluated(rel, None)
+        ctx.count("logunit:refused at construction")
+        return
+    for name, f in ops.items():
+        want = f(ref)
+        try:
+            got = f(lg)
+        except Exception as e_:  # noqa: BLE001
+            bad.append(f"{name}: raised {type(e_).__name__}: {str(e_)[:100]}")
+            continue
+
+        def same(a, b):
+            if isinstance(a, (str, int)) or a is None:
+                return a == b
+            a, b = np.asarray(a, float), np.asarray(b, float)
+            return a.shape == b.shape and bool(np.all(np.abs(a - b) <= 1e-9 * (1 + np.abs(b))))
+        ok = same(got, want) if not isinstance(want, list) else (len(got) == len(want) and all(same(x, y) for x, y in zip(got, want)))
+        if not ok:
+            bad.append(f"{name}: differs from the table in the ordinary unit")
+    ctx.evaluated(rel, (g["index"], which))
+    if bad:
+        ctx.violation(rel, g, dict(n=n, column=which, unit=str(logu), values={k_: np.asarray(v_.value).tolist() for k_, v_ in cols.items()}, t_ref=str(tref)),
+                      dict(failures=bad), None, "JokerSamples accepts the column; the operations of the property must then work on it and "
+                      "agree with the same physical table in the ordinary unit: " + "; ".join(bad), tags=dict(kind="logunit", column=which))
+
+
 def run_case(ctx, g):
     kind, index = g["kind"], g["index"]
     ctx.seed = g.get("seed", ctx.seed)
@@ -798,6 +864,8 @@ def run_case(ctx, g):
         reduce_case(ctx, g, rng)
     elif kind == "pack":
         pack_case(ctx, g, rng)
+    elif kind == "logunit":
+        logunit_case(ctx, g, rng)
     else:
         raise core.Infra(f"unknown case kind {kind}")
 
@@ -805,6 +873,7 @@ def run_case(ctx, g):
 def post(ctx):
     ctx.rule = RULE
     c = ctx.counters
+    ctx.require("tables with the period column in dex(d)", c["logunit:P"], 3)
     ctx.require("wrap_K tables with both signs of K", c["wrap:both_signs"], 40)
     ctx.require("wrap_K all negative", c["wrap:allneg"], 8)
     ctx.require("wrap_K nothing to do", c["wrap:allpos"], 8)
